@@ -83,6 +83,27 @@ func strsG(ss []string) string { return common.GStrs(ss) }
 
 func (g *gen) h(k string) { g.hist("form:" + k) }
 
+// a count in 0..base-1, now and then larger (up to base+2)
+func (g *gen) cnt(base int) int {
+	if g.r.Chance(10) {
+		return base + g.r.Intn(3)
+	}
+	return g.r.Intn(base)
+}
+func (g *gen) arity() int { return g.cnt(3) }
+func (g *gen) smallInt() int64 {
+	switch x := g.r.Intn(20); {
+	case x == 0:
+		return -1
+	case x == 1:
+		return int64(-2 - g.r.Intn(8))
+	case x == 2:
+		return int64(10 + g.r.Intn(990))
+	}
+	return int64(g.r.Intn(10))
+}
+func numL(z int64) string { return fmt.Sprint(z) }
+
 // visible variables (innermost binding of each name) of a type
 func (g *gen) vars(t typ, arity int, writable bool) []vinfo {
 	seen := map[string]bool{}
@@ -101,11 +122,28 @@ func (g *gen) vars(t typ, arity int, writable bool) []vinfo {
 	return out
 }
 
+// every visible variable (innermost binding of each name), whatever its type
+func (g *gen) anyVars() []vinfo {
+	seen := map[string]bool{}
+	var out []vinfo
+	for i := len(g.env) - 1; i >= 0; i-- {
+		v := g.env[i]
+		if !seen[v.name] {
+			seen[v.name] = true
+			out = append(out, v)
+		}
+	}
+	return out
+}
+
 func (g *gen) freshNames(n int) []string {
 	var out []string
 	used := map[string]bool{}
 	for len(out) < n {
 		s := common.Pick(g.r, namePool)
+		if len(g.env) > 0 && g.r.Chance(45) { // shadow a visible name
+			s = g.env[g.r.Intn(len(g.env))].name
+		}
 		if used[s] {
 			continue
 		}
@@ -133,14 +171,14 @@ func (g *gen) leaf(t typ) node {
 			v := common.Pick(g.r, vs)
 			return node{v.name, "(EVar " + q(v.name) + ")"}
 		}
-		z := int64(g.r.Intn(10))
+		z := g.smallInt()
 		return node{fmt.Sprint(z), gInt(z)}
 	case tList:
 		if vs := g.vars(tList, 0, false); len(vs) > 0 && g.r.Chance(60) {
 			v := common.Pick(g.r, vs)
 			return node{v.name, "(EVar " + q(v.name) + ")"}
 		}
-		n := g.r.Intn(4)
+		n := g.cnt(4)
 		if n == 0 {
 			if g.r.Bool() {
 				return node{"nil", "(EConst DNil)"}
@@ -155,11 +193,22 @@ func (g *gen) leaf(t typ) node {
 		}
 		return node{"'(" + strings.Join(ls, " ") + ")", "(EQuote (DList " + common.GList(gs) + "))"}
 	default:
-		switch g.r.Intn(6) {
+		if vs := g.anyVars(); len(vs) > 0 && g.r.Chance(35) {
+			v := common.Pick(g.r, vs)
+			return node{v.name, "(EVar " + q(v.name) + ")"}
+		}
+		switch g.r.Intn(7) {
 		case 0:
 			return node{"nil", "(EConst DNil)"}
 		case 1:
 			return node{"t", "(EConst DT)"}
+		case 6:
+			if g.r.Bool() {
+				return node{"\"str\"", "(EConst (DStr " + q("str") + "))"}
+			}
+			// a bare keyword that is directly a body form of a lambda is a known defect (replaced by a new unbound
+			// global variable the first time it is met): it is written as an argument
+			return node{"(prog1 :kw)", "(EProg1 (EConst (DRaw " + q(":kw") + ")) [])"}
 		case 2:
 			return g.quoteDatum()
 		case 3:
@@ -182,6 +231,18 @@ func (g *gen) datum(d int) (string, string) {
 	if d <= 0 || g.r.Chance(45) {
 		a := common.Pick(g.r, atoms)
 		return a[0], a[1]
+	}
+	if g.r.Chance(20) { // data that is a complete form
+		forms := [][2]string{
+			{"(quote x)", "DList [DSym " + q("quote") + "; DSym " + q("x") + "]"},
+			{"(lambda (x) x)", "DList [DSym " + q("lambda") + "; DList [DSym " + q("x") + "]; DSym " + q("x") + "]"},
+			{"(if a 1 2)", "DList [DSym " + q("if") + "; DSym " + q("a") + "; DInt 1; DInt 2]"},
+			{"(tr 9 9)", "DList [DSym " + q("tr") + "; DInt 9; DInt 9]"},
+			{"(setq x 1)", "DList [DSym " + q("setq") + "; DSym " + q("x") + "; DInt 1]"},
+			{"(function car)", "DList [DSym " + q("function") + "; DSym " + q("car") + "]"},
+		}
+		f := common.Pick(g.r, forms)
+		return f[0], f[1]
 	}
 	n := 1 + g.r.Intn(3)
 	var ls, gs []string
@@ -251,7 +312,20 @@ func (g *gen) stmts(max int, d int) []node {
 	n := g.r.Intn(max + 1)
 	var out []node
 	for i := 0; i < n; i++ {
-		switch g.r.Intn(4) {
+		switch g.r.Intn(5) {
+		case 4:
+			if c, ok := g.control(tAny, d-1); ok {
+				out = append(out, c)
+			} else {
+				nm, cn := "when", "EWhen"
+				if g.r.Bool() {
+					nm, cn = "unless", "EUnless"
+				}
+				g.h(nm)
+				c := g.test(d - 1)
+				b := g.body(tAny, d-1, 2)
+				out = append(out, node{lisp(nm, c.L, joinL(b)), fmt.Sprintf("(%s %s %s)", cn, c.G, listG(b))})
+			}
 		case 0:
 			out = append(out, g.tr(g.expr(tInt, d-2)))
 		case 1:
@@ -280,12 +354,17 @@ func (g *gen) setq(t typ, d int) (node, bool) {
 	g.h("setq")
 	v := common.Pick(g.r, vs)
 	e := g.expr(t, d-1)
-	if g.r.Chance(20) { // two pairs: sequential assignment
+	if g.r.Chance(25) { // several pairs: sequential assignment
 		if ws := g.vars(tInt, 0, true); len(ws) > 0 {
-			w := common.Pick(g.r, ws)
-			e0 := g.expr(tInt, d-1)
-			return node{lisp("setq", w.name, e0.L, v.name, e.L),
-				fmt.Sprintf("(ESetq [(%s, %s); (%s, %s)])", q(w.name), e0.G, q(v.name), e.G)}, true
+			ls := []string{"setq"}
+			var gs []string
+			for i := 1 + g.r.Intn(2); i > 0; i-- {
+				w := common.Pick(g.r, ws)
+				e0 := g.expr(tInt, d-1)
+				ls, gs = append(ls, w.name, e0.L), append(gs, fmt.Sprintf("(%s, %s)", q(w.name), e0.G))
+			}
+			ls, gs = append(ls, v.name, e.L), append(gs, fmt.Sprintf("(%s, %s)", q(v.name), e.G))
+			return node{lisp(ls...), "(ESetq " + common.GList(gs) + ")"}, true
 		}
 	}
 	return node{lisp("setq", v.name, e.L), fmt.Sprintf("(ESetq [(%s, %s)])", q(v.name), e.G)}, true
@@ -293,22 +372,31 @@ func (g *gen) setq(t typ, d int) (node, bool) {
 
 // bindings of a let-like form: names, types, init forms. seq = each init sees the earlier names.
 func (g *gen) bindings(d int, seq bool) (vs []vinfo, inits []node, mark int) {
-	n := 1 + g.r.Intn(3)
+	n := 1 + g.cnt(3)
 	if g.r.Chance(8) {
 		n = 0
 	}
 	names := g.freshNames(n)
+	if seq && n > 1 && g.r.Chance(15) { // let* may bind a name twice
+		names[n-1] = names[0]
+	}
 	mark = len(g.env)
 	for _, nm := range names {
 		var v vinfo
 		var in node
-		switch x := g.r.Intn(10); {
-		case x < 6:
+		switch x := g.r.Intn(20); {
+		case x < 11:
 			v, in = vinfo{name: nm, t: tInt}, g.expr(tInt, d-1)
-		case x < 8:
+		case x < 14:
 			v, in = vinfo{name: nm, t: tList}, g.expr(tList, d-1)
+		case x < 16: // no init form: x or (x); L carries the way it is written
+			v = vinfo{name: nm, t: tList}
+			in = node{"", "(EConst DNil)"}
+			if g.r.Bool() {
+				in.L = "()"
+			}
 		default:
-			k := g.r.Intn(3)
+			k := g.arity()
 			in = g.fun(k, d-1)
 			v = vinfo{name: nm, t: tFun, arity: k}
 		}
@@ -326,7 +414,14 @@ func (g *gen) bindings(d int, seq bool) (vs []vinfo, inits []node, mark int) {
 func bindsL(vs []vinfo, inits []node) string {
 	var ss []string
 	for i, v := range vs {
-		ss = append(ss, lisp(v.name, inits[i].L))
+		switch inits[i].L {
+		case "":
+			ss = append(ss, v.name)
+		case "()":
+			ss = append(ss, lisp(v.name))
+		default:
+			ss = append(ss, lisp(v.name, inits[i].L))
+		}
 	}
 	return "(" + strings.Join(ss, " ") + ")"
 }
@@ -341,7 +436,7 @@ func bindsG(vs []vinfo, inits []node) string {
 // control forms whose value is the value of an inner expression of type t
 func (g *gen) control(t typ, d int) (node, bool) {
 	nilable := t != tInt
-	switch g.r.Intn(24) {
+	switch g.r.Intn(26) {
 	case 0:
 		g.h("progn")
 		b := g.body(t, d, 2)
@@ -379,7 +474,7 @@ func (g *gen) control(t typ, d int) (node, bool) {
 		return node{strings.TrimSpace(lisp(nm, c.L, joinL(b))), fmt.Sprintf("(%s %s %s)", cn, c.G, listG(b))}, true
 	case 5, 6:
 		g.h("cond")
-		n := 1 + g.r.Intn(3)
+		n := 1 + g.cnt(3)
 		var ls, gs []string
 		for i := 0; i < n; i++ {
 			c := g.test(d)
@@ -397,12 +492,30 @@ func (g *gen) control(t typ, d int) (node, bool) {
 		return node{lisp("cond", strings.Join(ls, " ")), "(ECond " + common.GList(gs) + ")"}, true
 	case 7:
 		g.h("case")
-		k := g.expr(tInt, d-1)
-		n := 1 + g.r.Intn(3)
+		syms := g.r.Chance(35) // keys are symbols (never evaluated), the key form yields a symbol
+		symNames := []string{"foo", "bar", "baz", "qux", "x", "if"}
+		var k node
+		if syms {
+			pick := func() node {
+				nm := common.Pick(g.r, symNames)
+				return node{"'" + nm, "(EQuote (DSym " + q(nm) + "))"}
+			}
+			k = pick()
+			if g.r.Chance(40) {
+				c, b := g.test(d), pick()
+				k = node{lisp("if", c.L, k.L, b.L), fmt.Sprintf("(EIf %s %s (Some %s))", c.G, k.G, b.G)}
+			}
+			if g.r.Chance(30) {
+				k = g.tr(k)
+			}
+		} else {
+			k = g.expr(tInt, d-1)
+		}
+		n := 1 + g.cnt(3)
 		var ls, gs []string
 		used := map[int]bool{}
 		for i := 0; i < n; i++ {
-			nk := 1 + g.r.Intn(2)
+			nk := 1 + g.cnt(2)
 			var ks, kg []string
 			for j := 0; j < nk; j++ {
 				z := g.r.Intn(6)
@@ -410,7 +523,11 @@ func (g *gen) control(t typ, d int) (node, bool) {
 					continue
 				}
 				used[z] = true
-				ks, kg = append(ks, fmt.Sprint(z)), append(kg, fmt.Sprintf("DInt %d", z))
+				if syms {
+					ks, kg = append(ks, symNames[z]), append(kg, "DSym "+q(symNames[z]))
+				} else {
+					ks, kg = append(ks, fmt.Sprint(z)), append(kg, fmt.Sprintf("DInt %d", z))
+				}
 			}
 			if len(ks) == 0 {
 				continue
@@ -437,7 +554,7 @@ func (g *gen) control(t typ, d int) (node, bool) {
 		g.h("and-or")
 		if nilable && g.r.Bool() {
 			var es []node
-			for i := g.r.Intn(3); i > 0; i-- {
+			for i := g.cnt(3); i > 0; i-- {
 				es = append(es, g.test(d))
 			}
 			es = append(es, g.expr(t, d-1))
@@ -446,8 +563,11 @@ func (g *gen) control(t typ, d int) (node, bool) {
 			}
 			return node{lisp("and", joinL(es)), "(EAnd " + listG(es) + ")"}, true
 		}
+		if nilable && g.r.Chance(4) {
+			return node{"(or)", "(EOr [])"}, true
+		}
 		var es []node
-		for i := 1 + g.r.Intn(2); i > 0; i-- {
+		for i := g.cnt(3); i > 0; i-- {
 			if t == tAny && g.r.Bool() {
 				es = append(es, g.test(d))
 			} else {
@@ -474,7 +594,7 @@ func (g *gen) control(t typ, d int) (node, bool) {
 		return g.setq(t, d)
 	case 13:
 		g.h("mvb")
-		n := g.r.Intn(4)
+		n := g.cnt(4)
 		names := g.freshNames(n)
 		var ve node
 		if g.r.Chance(65) {
@@ -505,10 +625,16 @@ func (g *gen) control(t typ, d int) (node, bool) {
 		return g.dotimes(t, d)
 	case 17, 18:
 		return g.doLoop(t, d)
+	case 24:
+		return g.doWhile(t, d)
+	case 21, 22:
+		return g.shadowCall(t, d)
+	case 23:
+		return g.counters(t, d)
 	case 19, 20:
 		// ((lambda ...)) through funcall: the body's value
 		g.h("funcall-lambda")
-		k := g.r.Intn(3)
+		k := g.arity()
 		f := g.lambda(k, t, d-1)
 		args := g.args(k, d)
 		return node{strings.TrimSpace(lisp("funcall", f.L, joinL(args))), fmt.Sprintf("(EFuncall %s %s)", f.G, listG(args))}, true
@@ -519,9 +645,12 @@ func (g *gen) control(t typ, d int) (node, bool) {
 // (values e junk...) whose primary value has type t
 func (g *gen) values(t typ, d int, forced bool) node {
 	g.h("values")
+	if t != tInt && !forced && g.r.Chance(12) {
+		return node{"(values)", "(EValues [])"}
+	}
 	e := g.expr(t, d-1)
 	es := []node{e}
-	for i := g.r.Intn(3); i > 0; i-- {
+	for i := g.cnt(3); i > 0; i-- {
 		es = append(es, g.expr(typ(g.r.Intn(3)), d-2))
 	}
 	return node{lisp("values", joinL(es)), "(EValues " + listG(es) + ")"}
@@ -548,7 +677,11 @@ func (g *gen) lambda(k int, t typ, d int) node {
 	b := g.body(t, d, 2)
 	g.self = saveSelf
 	g.pop(mark)
-	return node{lisp("lambda", "("+strings.Join(ps, " ")+")", joinL(b)), fmt.Sprintf("(ELambda %s %s)", strsG(ps), listG(b))}
+	doc := ""
+	if g.r.Chance(6) {
+		doc = " \"about it\""
+	}
+	return node{lisp("lambda", "("+strings.Join(ps, " ")+")"+doc, joinL(b)), fmt.Sprintf("(ELambda %s %s)", strsG(ps), listG(b))}
 }
 
 // an expression whose value is a function of k integers returning an integer
@@ -655,7 +788,7 @@ func (g *gen) dotimes(t typ, d int) (node, bool) {
 	x := g.freshNames(1)[0]
 	var n node
 	if g.r.Chance(70) {
-		z := int64(g.r.Intn(4))
+		z := int64(g.cnt(4))
 		if g.r.Chance(4) {
 			z = -1
 		}
@@ -720,6 +853,10 @@ func (g *gen) doLoop(t typ, d int) (node, bool) {
 			if g.r.Chance(20) {
 				b.init = g.tr(b.init)
 			}
+		} else if g.r.Chance(10) {
+			// just the name: bound to nil, no step
+			b.v = vinfo{name: name, t: tList}
+			b.init = node{"", "(EConst DNil)"}
 		} else if g.r.Chance(75) {
 			b.v = vinfo{name: name, t: tInt, ro: false}
 			b.init = g.expr(tInt, d-1)
@@ -751,8 +888,18 @@ func (g *gen) doLoop(t typ, d int) (node, bool) {
 				s = g.tr(s)
 			}
 			bs[i].step = &s
-		} else if g.r.Chance(60) {
+		} else if bs[i].init.L != "" && g.r.Chance(65) {
 			s := g.expr(bs[i].v.t, d-1)
+			if bs[i].v.t == tInt && g.r.Chance(60) {
+				// the step reads another variable of the loop: parallel (do) and sequential (do*) stepping differ
+				o := bs[g.r.Intn(len(bs))].v
+				if i > 0 && g.r.Chance(70) {
+					o = bs[g.r.Intn(i)].v // one that is stepped before this one
+				}
+				if o.t == tInt {
+					s = node{lisp("+", o.name, s.L), fmt.Sprintf("(EPrim PAdd [EVar %s; %s])", q(o.name), s.G)}
+				}
+			}
 			bs[i].step = &s
 		}
 	}
@@ -779,9 +926,12 @@ func (g *gen) doLoop(t typ, d int) (node, bool) {
 	g.pop(mark)
 	var ls, gs []string
 	for _, b := range bs {
-		if b.step != nil {
+		switch {
+		case b.init.L == "":
+			ls = append(ls, b.v.name)
+		case b.step != nil:
 			ls = append(ls, lisp(b.v.name, b.init.L, b.step.L))
-		} else {
+		default:
 			ls = append(ls, lisp(b.v.name, b.init.L))
 		}
 		gs = append(gs, fmt.Sprintf("(%s, %s, %s)", q(b.v.name), b.init.G, optG(b.step)))
@@ -800,7 +950,7 @@ func (g *gen) typed(t typ, d int) node {
 			o := common.Pick(g.r, ops)
 			n := 2
 			if g.r.Chance(20) {
-				n = 3
+				n = 3 + g.r.Intn(2)
 			}
 			as := g.args(n, d)
 			g.h("prim")
@@ -814,7 +964,7 @@ func (g *gen) typed(t typ, d int) node {
 			g.h("prim")
 			return node{lisp("length", l.L), fmt.Sprintf("(EPrim PLength [%s])", l.G)}
 		case x < 60:
-			k := g.r.Intn(3)
+			k := g.arity()
 			f := g.fun(k, d-1)
 			as := g.args(k, d)
 			if k > 0 && g.r.Chance(35) {
@@ -844,7 +994,7 @@ func (g *gen) typed(t typ, d int) node {
 	case tList:
 		switch x := g.r.Intn(100); {
 		case x < 20:
-			n := g.r.Intn(4)
+			n := g.cnt(4)
 			as := g.args(n, d)
 			g.h("prim")
 			return node{strings.TrimSpace(lisp("list", joinL(as))), "(EPrim PList " + listG(as) + ")"}
@@ -862,8 +1012,8 @@ func (g *gen) typed(t typ, d int) node {
 			}
 			g.h("mapcar")
 			k := 1
-			if g.r.Chance(30) {
-				k = 2
+			if g.r.Chance(35) {
+				k = 2 + g.r.Intn(2)
 			}
 			f := g.fun(k, d-1)
 			var ls []node
@@ -894,7 +1044,7 @@ func (g *gen) typed(t typ, d int) node {
 			return node{lisp("eql", a.L, b.L), fmt.Sprintf("(EPrim PEql [%s; %s])", a.G, b.G)}
 		case x < 52:
 			// a closure as a value
-			return g.fun(g.r.Intn(3), d-1)
+			return g.fun(g.arity(), d-1)
 		case x < 55:
 			if g.errs {
 				g.h("type-error")
@@ -956,7 +1106,7 @@ func (g *gen) defun(d int) node {
 	g.nfun++
 	name := fmt.Sprintf("%sf%d", g.prefix, g.nfun)
 	rec := g.r.Chance(40)
-	k := g.r.Intn(3)
+	k := g.arity()
 	if rec && k == 0 {
 		k = 1
 	}
@@ -1001,7 +1151,11 @@ func (g *gen) defun(d int) node {
 	}
 	g.pop(mark)
 	g.funs = append(g.funs, fi)
-	n := node{lisp("defun", name, "("+strings.Join(ps, " ")+")", joinL(b)),
+	doc := ""
+	if g.r.Chance(10) {
+		doc = " \"what it does\""
+	}
+	n := node{lisp("defun", name, "("+strings.Join(ps, " ")+")"+doc, joinL(b)),
 		fmt.Sprintf("(EDefun %s %s %s)", q(name), strsG(ps), listG(b))}
 	if wrapMark >= 0 {
 		g.pop(wrapMark)
@@ -1020,4 +1174,137 @@ func (g *gen) program() []node {
 	g.budget = 30 + g.r.Intn(50)
 	forms = append(forms, g.expr(typ(g.r.Intn(3)), 6))
 	return forms
+}
+
+// (let ((V e1)) (let ((F (lambda (ps) .. V ..))) (let ((V e2) ..) (funcall F args) .. e))): a closure over V is
+// called where another V is bound; it must read and write its own V
+func (g *gen) shadowCall(t typ, d int) (node, bool) {
+	if d < 3 {
+		return node{}, false
+	}
+	g.h("idiom:closure-under-shadowing")
+	names := g.freshNames(2)
+	v, f := names[0], names[1]
+	e1 := g.expr(tInt, d-2)
+	mark := g.push(vinfo{name: v, t: tInt})
+	k := g.r.Intn(3)
+	ps := g.freshNames(k)
+	for i, p := range ps { // the parameters must not hide V
+		if p == v {
+			ps[i] = v + "p"
+		}
+	}
+	m2 := len(g.env)
+	for _, p := range ps {
+		g.push(vinfo{name: p, t: tInt})
+	}
+	var fb []node
+	ref := node{v, "(EVar " + q(v) + ")"}
+	switch g.r.Intn(3) {
+	case 0:
+		fb = append(g.stmts(1, d-1), g.tr(ref))
+	case 1:
+		inc := g.expr(tInt, d-2)
+		fb = append(g.stmts(1, d-1), node{lisp("setq", v, lisp("+", v, inc.L)), fmt.Sprintf("(ESetq [(%s, EPrim PAdd [EVar %s; %s])])", q(v), q(v), inc.G)})
+	default:
+		x := g.expr(tInt, d-2)
+		fb = []node{node{lisp("setq", v, x.L), fmt.Sprintf("(ESetq [(%s, %s)])", q(v), x.G)}, g.tr(ref)}
+	}
+	g.pop(m2)
+	lam := node{lisp("lambda", "("+strings.Join(ps, " ")+")", joinL(fb)), fmt.Sprintf("(ELambda %s %s)", strsG(ps), listG(fb))}
+	g.push(vinfo{name: f, t: tFun, arity: k})
+	// inner scope: V bound again (let, let*, a lambda parameter, a do variable or a dolist variable)
+	e2 := g.expr(tInt, d-2)
+	call := func() node {
+		as := g.args(k, d-1)
+		return node{strings.TrimSpace(lisp("funcall", f, joinL(as))), fmt.Sprintf("(EFuncall (EVar %s) %s)", q(f), listG(as))}
+	}
+	m3 := g.push(vinfo{name: v, t: tInt})
+	inner := []node{g.tr(call())}
+	inner = append(inner, g.stmts(1, d-1)...)
+	if g.r.Bool() {
+		inner = append(inner, g.tr(call()))
+	}
+	inner = append(inner, g.tr(node{v, "(EVar " + q(v) + ")"}))
+	g.pop(m3)
+	var shadow node
+	switch g.r.Intn(4) {
+	case 0:
+		shadow = node{lisp("let", "("+lisp(v, e2.L)+")", joinL(inner)), fmt.Sprintf("(ELet [(%s, %s)] %s)", q(v), e2.G, listG(inner))}
+	case 1:
+		shadow = node{lisp("let*", "("+lisp(v, e2.L)+")", joinL(inner)), fmt.Sprintf("(ELetStar [(%s, %s)] %s)", q(v), e2.G, listG(inner))}
+	case 2:
+		shadow = node{lisp("funcall", lisp("lambda", "("+v+")", joinL(inner)), e2.L),
+			fmt.Sprintf("(EFuncall (ELambda [%s] %s) [%s])", q(v), listG(inner), e2.G)}
+	default:
+		shadow = node{lisp("dolist", lisp(v, lisp("list", e2.L)), joinL(inner)),
+			fmt.Sprintf("(EDolist %s (EPrim PList [%s]) None %s)", q(v), e2.G, listG(inner))}
+	}
+	// after the inner scope: the outer V as the closure left it
+	rest := g.body(t, d-1, 1)
+	g.pop(mark)
+	all := append([]node{shadow, g.tr(call()), g.tr(ref)}, rest...)
+	l2 := node{lisp("let", "("+lisp(f, lam.L)+")", joinL(all)), fmt.Sprintf("(ELet [(%s, %s)] %s)", q(f), lam.G, listG(all))}
+	return node{lisp("let", "("+lisp(v, e1.L)+")", l2.L), fmt.Sprintf("(ELet [(%s, %s)] [%s])", q(v), e1.G, l2.G)}, true
+}
+
+// two closures over the same binding and a second instance with a binding of its own
+func (g *gen) counters(t typ, d int) (node, bool) {
+	if d < 3 {
+		return node{}, false
+	}
+	g.h("idiom:shared-binding")
+	names := g.freshNames(4)
+	c, inc, get, mk := names[0], names[1], names[2], names[3]
+	e1 := g.expr(tInt, d-2)
+	mark := g.push(vinfo{name: c, t: tInt})
+	dn := g.freshNames(1)[0]
+	if dn == c {
+		dn = c + "d"
+	}
+	g.push(vinfo{name: inc, t: tFun, arity: 1}, vinfo{name: get, t: tFun, arity: 0}, vinfo{name: mk, t: tAny})
+	incL := node{lisp("lambda", "("+dn+")", lisp("setq", c, lisp("+", c, dn))),
+		fmt.Sprintf("(ELambda [%s] [ESetq [(%s, EPrim PAdd [EVar %s; EVar %s])]])", q(dn), q(c), q(c), q(dn))}
+	getL := node{lisp("lambda", "()", c), fmt.Sprintf("(ELambda [] [EVar %s])", q(c))}
+	// (lambda (c) (lambda () (setq c (+ c 1)))) : every call makes a new binding
+	mkL := node{lisp("lambda", "("+c+")", lisp("lambda", "()", lisp("setq", c, lisp("+", c, "1")))),
+		fmt.Sprintf("(ELambda [%s] [ELambda [] [ESetq [(%s, EPrim PAdd [EVar %s; %s])]]])", q(c), q(c), q(c), gInt(1))}
+	n1, n2 := g.freshNames(2)[0], ""
+	n2 = n1 + "2"
+	a1, a2 := g.expr(tInt, d-2), g.expr(tInt, d-2)
+	g.push(vinfo{name: n1, t: tFun, arity: 0}, vinfo{name: n2, t: tFun, arity: 0})
+	b := g.body(t, d-1, 3)
+	g.pop(mark)
+	inner := node{lisp("let", "("+lisp(n1, lisp("funcall", mk, a1.L))+" "+lisp(n2, lisp("funcall", mk, a2.L))+")", joinL(b)),
+		fmt.Sprintf("(ELet [(%s, EFuncall (EVar %s) [%s]); (%s, EFuncall (EVar %s) [%s])] %s)", q(n1), q(mk), a1.G, q(n2), q(mk), a2.G, listG(b))}
+	l2 := node{lisp("let", "("+lisp(inc, incL.L)+" "+lisp(get, getL.L)+" "+lisp(mk, mkL.L)+")", inner.L),
+		fmt.Sprintf("(ELet [(%s, %s); (%s, %s); (%s, %s)] [%s])", q(inc), incL.G, q(get), getL.G, q(mk), mkL.G, inner.G)}
+	return node{lisp("let", "("+lisp(c, e1.L)+")", l2.L), fmt.Sprintf("(ELet [(%s, %s)] [%s])", q(c), e1.G, l2.G)}, true
+}
+
+// (let ((N 0)) (do () ((> N K) result) stmts.. (setq N (+ N 1)))): a do without variables
+func (g *gen) doWhile(t typ, d int) (node, bool) {
+	if g.loops >= maxLoops || d < 3 {
+		return node{}, false
+	}
+	g.h("idiom:do-without-variables")
+	nm := g.freshNames(1)[0]
+	k := int64(g.r.Intn(3))
+	star := "do"
+	sg := "false"
+	if g.r.Bool() {
+		star, sg = "do*", "true"
+	}
+	mark := g.push(vinfo{name: nm, t: tInt, ro: true})
+	g.loops++
+	body := g.stmts(2, d-1)
+	g.loops--
+	rs := g.body(t, d-1, 1)
+	g.pop(mark)
+	inc := node{lisp("setq", nm, lisp("+", nm, "1")), fmt.Sprintf("(ESetq [(%s, EPrim PAdd [EVar %s; %s])])", q(nm), q(nm), gInt(1))}
+	body = append(body, inc)
+	test := node{lisp(">", nm, fmt.Sprint(k)), fmt.Sprintf("(EPrim PGt [EVar %s; %s])", q(nm), gInt(k))}
+	loop := node{lisp(star, "()", lisp(test.L, joinL(rs)), joinL(body)),
+		fmt.Sprintf("(EDo %s [] %s %s %s)", sg, test.G, listG(rs), listG(body))}
+	return node{lisp("let", "("+lisp(nm, "0")+")", loop.L), fmt.Sprintf("(ELet [(%s, %s)] [%s])", q(nm), gInt(0), loop.G)}, true
 }
